@@ -473,6 +473,8 @@ def r3(cx):
             val = du.origin(s['rv']['o']) if s['rv']['k'] == 'use' else {'k': '?'}
             is_ignore = fs[-1:] == ['action'] and val['k'] == 'agg' and val['rv'].get('variant') == 'Ignore'
             cx.site('%s: current_state.%s = %s at %s' % (body.fn, '.'.join(fs[1:]), val.get('rv', {}).get('variant'), body.loc(s)))
+            if fs[-1:] == ['origin'] and val['k'] == 'agg' and val['rv'].get('variant') == 'Subshell':
+                continue          # decided by C08.R3b
             if not is_ignore:
                 cx.violation(fn, 'write:current_state', 'unexpected assignment to the current trap state on subshell entry',
                              loc=body.loc(s))
@@ -891,6 +893,67 @@ def r7(cx):
                              '(argument ppid)', loc=loc0)
     cx.sample({'function': FORK_FROM, 'copied': sorted(f for f, l in per.items() if any(w[1] == {f} for w in l))})
 
+@RS.rule('C08.R3b', 'K-GUARD+K-SIBLING', 'subshell entry with the Ignore option: a signal the shell itself starts to ignore is recorded with origin '
+         'Subshell (as GrandState::ignore does for a vacant entry) - only a signal that was already ignored keeps origin Inherited; and the '
+         'disposition is installed even when it does not change (that call is what unblocks SIGINT/SIGQUIT after Config::start blocked them)')
+def r3b(cx):
+    F = cx.F
+    fn = GRAND + '::enter_subshell'
+    body = F.main_body(fn)
+    cx.fn(body.fn)
+    du = Q.DefUse(body)
+    # (1) origin
+    ig = F.main_body(GRAND + '::ignore')
+    cx.fn(ig.fn)
+    sib = [s for b, j, s in Q.find_aggregates(ig, re.compile(r'trap::state::Origin$'), 'Subshell')]
+    cx.require(sib, 'GrandState::ignore no longer records Origin::Subshell (sibling reference moved)')
+    origin_w = []
+    for b, j, s, kind, f in Q.field_writes(body, GRAND, 'current_state'):
+        fs = [e['f'] for e in s['lhs'].get('p') or [] if isinstance(e, dict) and 'f' in e]
+        if kind == 'assign' and fs[-1:] == ['origin']:
+            origin_w.append((b, s))
+        elif kind == 'assign' and fs[-1:] == ['current_state'] and s['rv']['k'] in ('use', 'agg'):
+            o = du.origin(s['rv']['o']) if s['rv']['k'] == 'use' else {'k': 'agg', 'rv': s['rv']}
+            if o['k'] == 'agg' and any(du.origin(x).get('k') == 'agg' and du.origin(x)['rv'].get('variant') == 'Subshell' for x in o['rv'].get('ops', [])):
+                cs = conds(F, body, du, b)
+                if any(holds_eq(body, du, c, 'EnterSubshellOption::Ignore') for c in cs):
+                    origin_w.append((b, s))
+    ok = False
+    for b, s in origin_w:
+        cs = conds(F, body, du, b)
+        under_ignore = any(holds_eq(body, du, c, 'EnterSubshellOption::Ignore') for c in cs)
+        # not for a signal that is already ignored: a test of the current action against Action::Ignore with a negative outcome
+        not_ignored = any(c[0]['k'] == 'call' and Q.callee_is(c[0]['t'], NE + EQ) and
+                          any(n.endswith('Action::Ignore') for n in eq_const_args(body, du, c[0]['t'])) for c in cs) or \
+            any(c[0]['k'] == 'discr' and 'trap::state::Action' in (c[0].get('ty') or '') and c[1] != ('variant', 'Ignore') for c in cs)
+        cx.site('%s: origin := Subshell at %s; under option == Ignore: %s; only when not already ignored: %s' % (body.fn, body.loc(s), under_ignore, not_ignored))
+        if under_ignore and not_ignored:
+            ok = True
+        elif under_ignore:
+            cx.violation(fn, 'origin-reset-for-ignored-signal', 'the origin is set to Subshell also for a signal that was already ignored: a signal '
+                         'ignored on entry to the shell becomes trappable in the asynchronous subshell', loc=body.loc(s))
+    if not origin_w:
+        cx.site('%s: the Ignore option changes the action only; the origin stays as it was' % body.fn)
+    if not ok:
+        cx.violation(fn, 'inherited-origin-kept', 'with the Ignore option an existing record keeps origin Inherited although it is the shell that starts '
+                     'ignoring the signal now: after `trap -p` (which creates the record) an asynchronous subshell can no longer trap SIGINT/SIGQUIT '
+                     '(`trap; { trap "echo caught" INT; ..; } &` silently refuses the trap), while without the earlier `trap` it can - '
+                     'GrandState::ignore, used when no record exists, records Origin::Subshell', loc=body.loc(body.d))
+    # (2) the disposition is installed whenever the option is Ignore
+    sd = Q.find_calls(body, ['*::SignalSystem::set_disposition'])
+    cx.require(sd, 'enter_subshell no longer calls SignalSystem::set_disposition')
+    for b, t in sd:
+        cs = conds(F, body, du, b)
+        cmp_dom = [c for c in cs if c[0]['k'] == 'call' and Q.callee_is(c[0]['t'], NE + EQ) and
+                   any('Disposition' in str(x) for x in (c[0]['t'].get('at') or []))]
+        cx.site('%s: set_disposition at %s; dominated by a comparison of the old and new disposition: %s' % (body.fn, body.loc(t), bool(cmp_dom)))
+        if cmp_dom:
+            cx.violation(fn, 'disposition-skipped-when-unchanged', 'set_disposition is skipped whenever the disposition does not change, also with the '
+                         'Ignore option: Config::start has blocked SIGINT/SIGQUIT before the fork and relies on this call to unblock them, so '
+                         '`trap "" INT; cmd &` (and every `cmd &` of an interactive shell without job control, for SIGQUIT) runs cmd with the '
+                         'signal left BLOCKED instead of merely ignored', loc=body.loc(t))
+
+
 import witness
 witness.add(RS, 'C08.R5', ['c08_child_borrows_parent'],
             'compile-fail witness: the task run in a subshell cannot borrow parent state (E0597: Config::start requires a \'static task); the owning twin compiles')
@@ -941,3 +1004,7 @@ def r8(cx):
 def r9(cx):
     from rules.C09 import r3 as c09_r3
     c09_r3(cx)
+
+
+# --- explanation addendum (generated catalogue in DESIGN.md reads RS.explanation)
+RS.explanation += ' Added later: Config::start restores the signal mask on every exit after the fork (R8); a pipeline member that cannot be started leaves no pipe descriptor in the parent (R9).'
